@@ -1,5 +1,6 @@
 """numpy model (A-NUMPY): ufuncs are point-wise liftings, floor/ceil are mathematical, arrays are (shape, element function)"""
 import math
+import os
 from fractions import Fraction
 
 import z3
@@ -83,6 +84,8 @@ def _atom(I, e):
         cs = Sym(COSF(e), 'real')
         sn = Sym(SINF(e), 'real')
         I.ctx.fact(cs.e * cs.e + sn.e * sn.e == 1)
+        # special values (cos 0 = 1 ...) and parity (cos(-a) = cos a) are added lazily, only when a candidate counter-model
+        # contradicts them: see vc._trig_refinements
         c = (cs, sn, e)
         I.ctx.trig_cache[key] = c
     return c[0], c[1]
